@@ -12,7 +12,7 @@ def client_pkg_internal_datatypes_snapshot_go : Nat := 0x605473dde7ab2be7
 /-- client/pkg/internal/datatypes/transaction.go (16 declarations) -/
 def client_pkg_internal_datatypes_transaction_go : Nat := 0xe49121e6d6c155a1
 /-- client/pkg/internal/datatypes/wired.go (19 declarations) -/
-def client_pkg_internal_datatypes_wired_go : Nat := 0x546283ed1a275a78
+def client_pkg_internal_datatypes_wired_go : Nat := 0x0d2c7c41fa51fdcf
 /-- client/pkg/internal/managers/datatype.go (13 declarations) -/
 def client_pkg_internal_managers_datatype_go : Nat := 0xaeeed76605a07197
 /-- client/pkg/internal/managers/notify.go (12 declarations) -/
